@@ -354,7 +354,7 @@ func TestC05(t *testing.T) {
 		})
 	})
 	t.Run("crash", func(t *testing.T) {
-		maxPoints := ev.Scale(24, 400)
+		maxPoints := ev.Scale(24, 250)
 		check(t, "C05", cases(12, 120), 0, func(rt *rapid.T) {
 			backend := rapid.SampledFrom([]string{run.Bbolt, run.Bbolt, run.BadgerDisk, run.BadgerDiskSmall}).Draw(rt, "backend")
 			p := c05Profile()
@@ -380,6 +380,14 @@ func TestC05(t *testing.T) {
 			for i := 0; i < nops; i++ {
 				if i == oversized && s.M.Colls["A"] != nil {
 					do(cs.Op{Kind: "geninsert", Coll: "A", Gen: &cs.GenSpec{First: 500000, N: 2000, Pad: 600, Mul: 1, Mod: 50}})
+					continue
+				}
+				if rapid.IntRange(0, 9).Draw(rt, "bigimport") == 0 {
+					// an import of a file with a few thousand documents into a new collection: one
+					// operation, so a crash anywhere inside it must leave nothing of it behind
+					name := "I" + strconv.Itoa(i)
+					g := &cs.GenSpec{First: 700000 + 5000*i, N: rapid.SampledFrom([]int{2500, 2500, 1100}).Draw(rt, "impn"), Mul: 1, Mod: 50}
+					do(cs.Op{Kind: "genimport", Coll: name, Path: "big-" + name + ".json", Gen: g})
 					continue
 				}
 				if rapid.IntRange(0, 5).Draw(rt, "bigbatch") == 0 && s.M.Colls["A"] != nil {
